@@ -129,7 +129,13 @@ def f_step(x):
     return float(sum(1.0 for v in x if _num(v) > 3.5))
 
 
-OBJECTIVES = {'quad': f_quad, 'plateau': f_plateau, 'multi': f_multi, 'zero': f_zero, 'step': f_step}
+def f_denorm(x):
+    # scores on a denormal scale (e.g. a raw likelihood): finite, non-zero, below 2.2e-308
+    return f_quad(x) * 1e-312
+
+
+OBJECTIVES = {'quad': f_quad, 'plateau': f_plateau, 'multi': f_multi, 'zero': f_zero, 'step': f_step,
+              'denorm': f_denorm}
 
 
 def _safe(fn, x):
@@ -243,6 +249,9 @@ def _vars(proto):
     if proto == 'mixed3':
         return [CV(name='a', lower_bound=-3, upper_bound=4), DiscreteVariable(name='d', choices=['p', 'q', 'r', 's']),
                 BinaryVariable(name='b', n_vars=2)]
+    if proto == 'cm2d':     # a list-bounded multi-variable listed first, followed by other variables
+        return [CM(name='x', lower_bounds=[-3, -2], upper_bounds=[4, 5]), DiscreteVariable(name='d', choices=['p', 'q', 'r']),
+                CV(name='a', lower_bound=0, upper_bound=1)]
     if proto == 'perm4':
         return [PermutationVariable(name='p', items=[3, 1, 4, 2])]
     if proto == 'perm4s':   # string items: decoding goes through the label table of the variable
@@ -253,7 +262,7 @@ def _vars(proto):
 
 
 CONTINUOUS = ['cont3z', 'cont3s', 'scales4', 'far2', 'cont2s', 'cont1', 'cm1', 'cont5', 'mo2']
-INTEGER = ['disc2', 'dm2', 'dm3', 'bin4', 'mixed3', 'perm4', 'perm4c']
+INTEGER = ['disc2', 'dm2', 'dm3', 'bin4', 'mixed3', 'cm2d', 'perm4', 'perm4c']
 EXTRA_PROTOS = ['perm4s']     # used by dedicated checks only (C07)
 ALL_PROTOS = CONTINUOUS + INTEGER
 
